@@ -215,3 +215,95 @@ func (p *Pool) Put(v any) {
 		p.items = append(p.items, v)
 	}
 }
+
+// ---- the rest of package sync, so that a change that starts using it still builds.
+
+// Map: a plain map behind the shim mutex (every method is a scheduling point through it).
+type Map struct {
+	mu Mutex
+	m  map[any]any
+	ks []any // insertion order, for a deterministic Range
+}
+
+func (m *Map) Load(k any) (any, bool) {
+	m.mu.Lock()
+	defer m.mu.Unlock()
+	v, ok := m.m[k]
+	return v, ok
+}
+
+func (m *Map) Store(k, v any) {
+	m.mu.Lock()
+	defer m.mu.Unlock()
+	if m.m == nil {
+		m.m = map[any]any{}
+	}
+	if _, ok := m.m[k]; !ok {
+		m.ks = append(m.ks, k)
+	}
+	m.m[k] = v
+}
+
+func (m *Map) LoadOrStore(k, v any) (any, bool) {
+	m.mu.Lock()
+	defer m.mu.Unlock()
+	if o, ok := m.m[k]; ok {
+		return o, true
+	}
+	if m.m == nil {
+		m.m = map[any]any{}
+	}
+	m.ks = append(m.ks, k)
+	m.m[k] = v
+	return v, false
+}
+
+func (m *Map) LoadAndDelete(k any) (any, bool) {
+	m.mu.Lock()
+	defer m.mu.Unlock()
+	v, ok := m.m[k]
+	if ok {
+		delete(m.m, k)
+		for i, x := range m.ks {
+			if x == k {
+				m.ks = append(m.ks[:i:i], m.ks[i+1:]...)
+				break
+			}
+		}
+	}
+	return v, ok
+}
+
+func (m *Map) Delete(k any) { m.LoadAndDelete(k) }
+
+func (m *Map) Swap(k, v any) (any, bool) {
+	o, ok := m.Load(k)
+	m.Store(k, v)
+	return o, ok
+}
+
+func (m *Map) Range(f func(k, v any) bool) {
+	m.mu.Lock()
+	ks := append([]any{}, m.ks...)
+	m.mu.Unlock()
+	for _, k := range ks {
+		v, ok := m.Load(k)
+		if ok && !f(k, v) {
+			return
+		}
+	}
+}
+
+func OnceFunc(f func()) func() {
+	var o Once
+	return func() { o.Do(f) }
+}
+
+func OnceValue[T any](f func() T) func() T {
+	var o Once
+	var v T
+	return func() T {
+		o.Do(func() { v = f() })
+		return v
+	}
+}
